@@ -168,7 +168,7 @@ theorem decInts_map (l : List Nat) : decInts (l.map (fun (n : Nat) => Val.int n)
   | nil => rfl
   | cons a l ih => simp [decInts, ih]
 
-def sortedVal : Val :=
+def refreshSortedVal : Val :=
   match metas.filter (fun n => !lazy n) with
   | [] => .nil
   | l => .list ((sort ltb l).map (fun (n : Nat) => Val.int n))
@@ -176,8 +176,8 @@ def sortedVal : Val :=
 /-- the sort call: the comparator literal `i < j` is what the handler computes -/
 theorem rf_s2 (w : List Nat) :
     evalS (RFP sort metas lazy getFails) [("names", encNames (metas.filter (fun n => !lazy n)))] w (rfStmt 2) =
-      some ([("names", sortedVal sort metas lazy)], w, .norm) := by
-  unfold sortedVal
+      some ([("names", refreshSortedVal sort metas lazy)], w, .norm) := by
+  unfold refreshSortedVal
   cases hl : metas.filter (fun n => !lazy n) with
   | nil => go_simp [rfStmt, Progs.fac_Refresh, refreshPrims, refreshHfn, encNames]
   | cons a l =>
@@ -206,12 +206,12 @@ theorem rf3_iter (v : Val) (i n : Nat) (w : List Nat) :
     go_simp [rfBody3, rfStmt, Progs.fac_Refresh, refreshPrims, refreshFn, getStep, hf, ctlOf, errN]
 
 theorem rf_s3 (w : List Nat) :
-    evalS (RFP sort metas lazy getFails) [("names", sortedVal sort metas lazy)] w (rfStmt 3) =
-      some ([("names", sortedVal sort metas lazy)], (runLoop getFails (refreshNames sort metas lazy) w).1,
+    evalS (RFP sort metas lazy getFails) [("names", refreshSortedVal sort metas lazy)] w (rfStmt 3) =
+      some ([("names", refreshSortedVal sort metas lazy)], (runLoop getFails (refreshNames sort metas lazy) w).1,
             if (runLoop getFails (refreshNames sort metas lazy) w).2 then .ret errN else .norm) := by
   rw [rf_s3_shape]
   simp only [evalS]
-  unfold sortedVal refreshNames
+  unfold refreshSortedVal refreshNames
   cases hl : metas.filter (fun n => !lazy n) with
   | nil => go_simp [runLoop]
   | cons a l =>
